@@ -149,6 +149,7 @@ func gen(r *hx.Rng, tier string, i int) []hx.Zs {
 	h[0] = initOp(ti, fam)
 	h = addFilterless(r, ti, fam, h)
 	h = nestTags(r, ti, h)
+	h = addBareFilters(r, ti, fam, h)
 	h = unobserved(r, ti, fam, h)
 	perType[string(ti.Function)]++
 	perFamily[fmt.Sprint(fam)]++
@@ -289,6 +290,58 @@ func nestTags(r *hx.Rng, ti *upd.TypeInfo, h []hx.Zs) []hx.Zs {
 		if cp != nil {
 			h[i] = cp
 		}
+	}
+	return h
+}
+
+// addBareFilters: updates whose delete and / or partial filter is BARE (only cmdControl.delete /
+// cmdControl.partial, no selector, no elements: FilterType.Data() fails, model.UpdateList skips such a
+// filter and goes on with the data), with data that changes something (identified items: merge;
+// an identifier-less item: all items), on every family, local and remote, persisting or not.  The
+// generator of harness/upd produces bare partial filters only, never a bare delete filter.  Half of
+// the histories get 1-2 of them, usually behind a DataCopy.
+func addBareFilters(r *hx.Rng, ti *upd.TypeInfo, fam int, h []hx.Zs) []hx.Zs {
+	if len(h) < 2 || !r.Bool() {
+		return h
+	}
+	bare, none := upd.Filter{Present: true}, upd.Filter{}
+	for n := r.Range(1, 2); n > 0; n-- {
+		var items [][]int64
+		switch r.Pick(4, 3, 1) {
+		case 0:
+			for k := r.Range(1, 3); k > 0; k-- {
+				items = append(items, genItem(r, ti, true))
+			}
+		case 1:
+			items = [][]int64{genItem(r, ti, false)}
+		}
+		fp, fd := none, bare // bare delete alone, bare delete + bare partial, bare delete + real partial selector is left to the generator
+		if r.Chance(1, 3) {
+			fp = bare
+		}
+		remote, persist, wire := int64(0), int64(1), int64(0)
+		switch fam {
+		case 0:
+			remote = int64(r.Pick(3, 2))
+			persist = int64(r.Pick(3, 1))
+		case 2:
+			persist = int64(r.Pick(3, 1))
+			if persist == 1 && r.Chance(1, 3) {
+				wire = int64(1 + r.Intn(2))
+			}
+		default:
+			if r.Chance(1, 4) {
+				remote, wire = 1, 1
+			}
+		}
+		op := ti.EncodeUpdate(remote, persist, wire, items, fp, fd)
+		stats["updates_with_bare_delete_filter"]++
+		pos := r.Range(2, len(h))
+		ins := []hx.Zs{op}
+		if r.Chance(2, 3) {
+			ins = []hx.Zs{{2}, op}
+		}
+		h = append(h[:pos:pos], append(ins, h[pos:]...)...)
 	}
 	return h
 }
@@ -504,6 +557,15 @@ func fixed(tier string) [][]hx.Zs {
 			ti.EncodeUpdate(0, 1, 0, [][]int64{{2, 1, 1}, {0, 4, 4}}, none, none), {2},
 			ti.EncodeUpdate(0, 1, 0, nil, sel(2), none),
 			ti.EncodeUpdate(0, 1, 0, [][]int64{{0, 5, 0}}, sel(3), none), {2}})
+	}
+	// bare filters (only cmdControl.delete / cmdControl.partial): skipped by the engine, the data is
+	// merged and stored; whatever the API then reports must fit what it stored (FeatureLocal.UpdateData,
+	// FeatureRemote.UpdateData, bare FunctionData)
+	for _, fam := range []int{0, 2, 3} {
+		out = append(out, []hx.Zs{initOp(ti, fam),
+			ti.EncodeUpdate(0, 1, 0, [][]int64{{2, 1, 1}, {3, 1, 1}}, none, none), {2},
+			ti.EncodeUpdate(0, 1, 0, [][]int64{{3, 7, 7}, {4, 1, 1}}, none, part), {2},
+			ti.EncodeUpdate(0, 1, 0, [][]int64{{0, 8, 0}}, part, part), {2}})
 	}
 	// unobserved stretch: a persisted partial update, then in-place updates without persistence, none
 	// of them read back, then DataCopy (the returned data of the first is kept all along)
